@@ -2,7 +2,7 @@
    `exact`, so it is checked to be convertible with it); proofs in RcP.v (strong side) and RcWeakP.v (weak side) *)
 From Coq Require Import ZArith List Bool Lia Arith.
 Import ListNotations.
-Require Import Params StateW DisposeW Rc RcSpec RcP RcWeakP.
+Require Import Params StateW DisposeW ModularW StateP ModularP RcDepthP RcEpochP RcStampP RcSnapCheck RcSnapP RcSnapInvP RcWSnapInvP Rc RcSpec RcP RcWeakP.
 Local Open Scope Z_scope.
 
 (* the WeakSnapshot half of the property (RcSpec.C03_wsnap_statement) is stated in RcSpec.v and NOT proved *)
@@ -44,4 +44,36 @@ Theorem C03_example_state :
        end = true.
 Proof. exact RcWeakP.ex_C03_state. Qed.
 Print Assumptions C03_example_state.
+
+
+(* ---- FINAL FORM (RcWSnapInvP.v): the same statements under run_ok only - fresh start, well-formed programs
+   (cellops_ok, bounded_run) and the run hypotheses H2 pinned / H3 scoped, wscoped / epoch < 2^62; the former hypothesis
+   live_counted (scounted_ok, wcounted_ok = finding F5, wlive_ok) is now a THEOREM (C02_count_hypotheses_discharged) *)
+Theorem C03_final :
+  forall (s0 : state) (sched : list (nat * list Z)),
+       run_ok s0 sched ->
+       let s := mrun s0 sched in
+       forall (o : nat) (ob : obj), geto s o = Some ob -> 0 < wowners s o -> freed ob = false.
+Proof. exact RcWSnapInvP.C03_final. Qed.
+Print Assumptions C03_final.
+
+Theorem C03_weak_snapshot_keeps_block :
+  C03_wsnap_statement'.
+Proof. exact RcWSnapInvP.C03_wsnap. Qed.
+Print Assumptions C03_weak_snapshot_keeps_block.
+
+Theorem C03_weak_step :
+  forall (s : state) (t : nat) (rec : list Z) (s' : state) (obs : list Z),
+       Inv' s -> EOK s -> bounded s -> bounded s' -> micro s t rec = Some (s', obs) -> WStep s s'.
+Proof. exact RcWSnapInvP.micro_wstep. Qed.
+Print Assumptions C03_weak_step.
+
+Theorem C03_weak_protection_stable :
+  forall (s : state) (t : nat) (rec : list Z) (s' : state) (obs : list Z),
+       Inv' s ->
+       Inv' s' ->
+       Winv s ->
+       EOK s -> bounded s -> bounded s' -> stable s s' -> micro s t rec = Some (s', obs) -> wstable s s'.
+Proof. exact RcWSnapInvP.micro_wstable. Qed.
+Print Assumptions C03_weak_protection_stable.
 
